@@ -682,6 +682,8 @@ func runC07(cfg hx.Config) error {
 		out.Count("schema:cyc")
 		out.Emit("c07 doc ( cyc "+name+" )", cycleProbe(name))
 	}
+	// the schema types without a model: judged on the implementation alone by the independent validator
+	runUnmodelled(out)
 	corpus := corpusSchemas()
 	seen := map[string]bool{}
 	liveOf := map[*Sch]*live{}
